@@ -349,8 +349,11 @@ class Ctx:
               "coverage": cov, "assumptions": self.assumptions, "wall_s": round(time.time() - self.t0, 2),
               "violations": nviol, "known_findings_observed": known_seen, "notes": self.notes,
               "repo": self.repo}
-        os.makedirs(os.path.join(VERIF, "evidence"), exist_ok=True)
-        json.dump(ev, open(os.path.join(VERIF, "evidence", self.pid + ".json"), "w"), indent=1, default=str)
+        # evidence under /verif/evidence always describes /repo itself; a run against a scratch copy (VERIF_REPO, used by
+        # bin/mutant and bin/seedtest) writes its evidence next to the scratch data instead
+        edir = os.path.join(VERIF, "evidence") if os.path.realpath(self.repo) == "/repo" else os.path.join(self.scratch, "evidence")
+        os.makedirs(edir, exist_ok=True)
+        json.dump(ev, open(os.path.join(edir, self.pid + ".json"), "w"), indent=1, default=str)
 
 
 def distinct_count(items):
